@@ -1,0 +1,8 @@
+//go:build !verif
+
+// Package verifhook provides named instrumentation points for the external
+// verification harness. Without the `verif` build tag every point is a no-op.
+package verifhook
+
+// Point is a no-op unless built with `-tags verif`.
+func Point(name string) {}
